@@ -229,6 +229,14 @@ func runC15(c *rt.Ctx) {
 					[]wire.Op{{Kind: "set", Key: "a", Val: big}, {Kind: "mget", Keys: []string{"a", "nope", "a", "a"}, Quiet: []bool{bin, bin, bin, false}}})
 				if proto == "binary" {
 					streams = append(streams, []wire.Op{{Kind: "quit", QuietW: true}})
+				} else {
+					// clients that speak neither protocol (first byte neither 0x80 nor a lower-case letter):
+					// a blank line, an HTTP probe, a TLS hello, a binary *response* frame, digits; and a line
+					// that never ends
+					for _, raw := range []string{"\r\n", "GET foo\r\n", "HEAD / HTTP/1.0\r\n\r\n", "\x16\x03\x01\x00\x05hello", "\x81\x00\x00\x00\x00\x00\x00\x00\x00\x00\x00\x00\x00\x00\x00\x00\x00\x00\x00\x00\x00\x00\x00\x00", "123 abc\r\n", " get a\r\n"} {
+						streams = append(streams, []wire.Op{{Kind: "raw", Raw: []byte(raw)}})
+					}
+					streams = append(streams, []wire.Op{{Kind: "raw", Raw: []byte("get " + strings.Repeat("k", 70000))}})
 				}
 				for _, ops := range streams {
 					var stream []byte
@@ -238,7 +246,22 @@ func runC15(c *rt.Ctx) {
 						stream = append(stream, wire.Encode(proto, ops[i])...)
 						tag += opTag(ops[i]) + ","
 					}
-					for cut := 0; cut <= len(stream); cut++ {
+					var cuts []int
+					if len(stream) <= 6000 {
+						for cut := 0; cut <= len(stream); cut++ {
+							cuts = append(cuts, cut)
+						}
+					} else {
+						// a very long stream: the offsets around the buffer sizes on the way
+						for _, b := range []int{0, 4096, 8192, 65536, 69632, len(stream) - 1} {
+							for d := -1; d <= 1; d++ {
+								if k := b + d; k >= 0 && k <= len(stream) {
+									cuts = append(cuts, k)
+								}
+							}
+						}
+					}
+					for _, cut := range cuts {
 						if c.Expired() {
 							return
 						}
